@@ -125,9 +125,12 @@ DiffAll(m, o) ==
                        ELSE DiffOne(cs[1], ss[1], o.sized))
             ELSE IF Len(cs) = 0 THEN {Item("spurious-suggestion", w, {})}
             ELSE \* Free_X02_SameClass: several occurrences: same number of suggestions, each acceptable for some occurrence
-                 (IF Len(ss) = Len(want) THEN {} ELSE {Item("suggestion-count", w, {})})
-                 \cup UNION {IF \E j \in DOMAIN want : DiffOne(want[j], ss[k], o.sized) = {} THEN {}
-                             ELSE {Item("wrong-suggestion", w, {})} : k \in DOMAIN ss}
+                 \* (the known-defect tags are attached per shape of ANY occurrence: the occurrences cannot be told apart)
+                 LET ff == IF \E j \in DOMAIN cs : FirstFunctionShape(cs[j]) THEN {TagFirstFunction} ELSE {}
+                     md(s) == IF o.sized /\ (s.size = 0 \/ s.line = 0) THEN {TagMergeDrops} ELSE {}
+                 IN  (IF Len(ss) = Len(want) THEN {} ELSE {Item("suggestion-count", w, ff)})
+                     \cup UNION {IF \E j \in DOMAIN want : DiffOne(want[j], ss[k], o.sized) = {} THEN {}
+                                 ELSE {Item("wrong-suggestion", w, ff \cup md(ss[k]))} : k \in DOMAIN ss}
   IN  UNION {one(key) : key \in keys}
 
 \* the table of the command shows no package: rows are matched by class name alone; the harness keeps class
